@@ -8,7 +8,7 @@ from .. import AnalysisError
 from ..absint import Evaluator, Unsupported
 from ..flow import show, walk_term
 from ..report import ob_ok, ob_fail, ob_undecided, VERIF
-from .common import is_call, method_call, elem_of, strip_wrappers, guards_of, enclosing_loops, need, strip_not, if_arms, aug_like, resolve_ast
+from .common import is_call, method_call, elem_of, strip_wrappers, guards_of, enclosing_loops, need, strip_not, if_arms, aug_like, resolve_ast, call_arg
 from . import tables
 
 with open(os.path.join(VERIF, "spec", "fragment_tokens.json")) as fh:
@@ -211,7 +211,7 @@ def tok_rules(repo, tier="quick"):
         if not calls:
             raise AnalysisError("ring branch no longer calls collect_ring_number", fi.where(node))
         c0, n0 = calls[0]
-        arg_atom = c0.args[2] if len(c0.args) > 2 else None
+        arg_atom = call_arg(c0, 2, "node_count")
         ok_atom = isinstance(arg_atom, ast.Name) and arg_atom.id == T.PREV
         (obs.append(ob_ok("TOK.T2-ring", fi, c0, construct="collect_ring_number(iter, token, previous atom, rings)", instance="atom",
                           reason="ring closures belong to the atom written before them")) if ok_atom else
@@ -464,7 +464,9 @@ def _descriptor_rules(T, bb, darm, dnode):
             ch = al[2].id
             loops = enclosing_loops(fi, d.node)
             if loops and loops[0].kind == "while":
-                tst = loops[0].ast.test
+                tst, tpol = strip_not(loops[0].ast.test, True)
+                if isinstance(tst, ast.Compare) and len(tst.ops) == 1 and isinstance(tst.ops[0], ast.Eq) and not tpol:
+                    tst = ast.Compare(left=tst.left, ops=[ast.NotEq()], comparators=tst.comparators)
                 def is_next(v):
                     if isinstance(v, ast.Name) and id(v) in cfg.owner:
                         v = resolve_ast(fl, v, cfg.owner[id(v)])[0]
